@@ -15,7 +15,9 @@ INTERNAL_KEYS = []          # 'err' (message text) and 'wl' are compared but are
 
 RULE = ('pointer token lists over {~ / 0 1 a "" ~0 ~1 ~01 ...} (all lists up to length 2, random to 5) and '
         'pointer strings; documents = generated trees rendered with random whitespace, number/escape boundary '
-        'texts (2^31, 2^32, 2^63, 2^64 +-1, leading zeros, lone signs, every escape), mutated documents, random '
+        'texts (2^31, 2^32, 2^63, 2^64 +-1, leading zeros, lone signs, every escape), doubles with 1-20 digit exponents of '
+        'both signs / int32- and uint64-wrap exponents / long digit strings / leading fractional zeros under a 4 s '
+        'per-case watchdog, mutated documents, random '
         'bytes, NUL, nesting ladders around MAX_DEPTH and up to 64 KiB; API-built trees to depth 8; patch programs '
         'of 1-8 ops on generated documents with paths aimed at existing members, indices len-1/len/len+1, "-", '
         'non-canonical indices and keys containing / and ~.  non-trivial = pointer valid / text accepted / tree '
@@ -26,7 +28,9 @@ TRUSTED = ['modelled rather than verified: JsonPointer.cpp (all), JsonLexer.cpp 
            'stacks folded into direct tree construction), JsonWriter.cpp + StringUtils Escape/EncodeString, '
            'JsonDouble::AsString, Json.cpp LookupElement*/InsertElementAt/RemoveElementAt/ReplaceElementAt/'
            'operator== for non-double values, JsonPatch.cpp (all ops), JsonData::Apply; '
-           'NOT modelled: JsonPatchParser, JsonSchema, PointerTracker, double arithmetic (AsDouble, comparisons '
+           'NOT modelled: JsonDouble::AsDouble (floating point/pow; its termination in time independent of the exponent value '
+           'is evidenced only by the 4 s per-case watchdog on generated exponents of 1-20 digits incl. the int32 extremes), '
+           'JsonPatchParser, JsonSchema, PointerTracker, double arithmetic (comparisons '
            'with doubles), JsonSections; MAX_DEPTH regenerated from JsonLexer.h']
 
 def hx(b):
@@ -149,6 +153,37 @@ DOC_TEXTS = ['[]', '{}', '[', '{', ']', '}', '[,]', '[1,]', '[1 2]', '[1,,2]', '
              '[[]]', '[{}]', '[[],[]]', '{"a":[]}', '{"a":{}}', '[[1,2],[3]]', '[{"a":1}]', '[1,[2,[3,[4]]]]',
              '{"":1}', '{"a/b":1,"m~n":2}', '{"\\n":1}', '[1]x', '[1] ,', ' [ 1 , 2 ] ', '{"a":"\\u0000b"}',
              '[1,\x002]', '\x00[1]', '[tru]', '[nul]', '[-]', '[1.]', '[1e]', '{"k":-}', '{"k":1e}']
+
+# doubles: the lexer's number path with fraction/exponent; JsonDouble must not do work proportional
+# to the exponent's value (int32 field after the uint64/int64 wrap)
+DBL_FIXED = ['-0', '-0.0', '0e0', '1e400', '1e-400', '-1e400', '1E+400', '25e123456789012345', '0.1e-123456789012345678',
+             '1e2147483647', '1e-2147483647', '1e2147483648', '1e-2147483648', '1e-2147483649', '1e4294967295',
+             '1e4294967296', '1e4294967297', '7e2000000000', '7e-2000000000', '1e18446744073709551615',
+             '1e-18446744073709551615', '1e18446744073709551616', '1e99999999999999999999', '0.' + '0' * 30 + '1',
+             '0.' + '0' * 400 + '1', '1.' + '0' * 50, '1.' + '9' * 40, '9' * 40 + '.5', '1' + '0' * 30 + 'e-30',
+             '0.000', '0.0001e4', '12.0340', '1.5E3', '00.5', '1.e5', '1.5e', '1.5e+', '-.5', '1.2.3', '1e5e5', '1e5.5']
+
+def rand_double_text(rng):
+    s = '-' if rng.random() < 0.3 else ''
+    nd = rng.choice([1, 1, 2, 5, 19, 20, 21, 30])
+    s += rng.choice(['0', str(rng.randrange(1, 10)) + ''.join(rng.choice('0123456789') for _ in range(nd - 1))])
+    r = rng.random()
+    if r < 0.7:
+        s += '.' + '0' * rng.choice([0, 0, 1, 3, 12, 40]) + ''.join(rng.choice('0123456789')
+                                                                       for _ in range(rng.choice([0, 1, 2, 6, 19, 20, 25])))
+    if r > 0.3:
+        ed = rng.randrange(1, 21)
+        s += rng.choice('eE') + rng.choice(['', '+', '-', '-']) + rng.choice(['', '0', '00']) + \
+            str(rng.randrange(1, 10)) + ''.join(rng.choice('0123456789') for _ in range(ed - 1))
+    return s
+
+def wrap_text(rng, t):
+    k = rng.randrange(5)
+    if k == 0: return t
+    if k == 1: return '[' + t + ']'
+    if k == 2: return '{"gain": ' + t + '}'
+    if k == 3: return '[1, ' + t + ', {"x": [' + t + ']}]'
+    return ' [\n  ' + t + ' ,"s"]\n'
 
 def mutate(rng, s):
     b = bytearray(s.encode('latin-1'))
@@ -288,6 +323,12 @@ def gen_cases(rng, tier):
         yield 'parse ' + hx('[' + t + ']')
         yield 'parse ' + hx('{"k": ' + t + ' }')
         yield 'parse ' + hx('[0,' + t + ',1]')
+    for t in DBL_FIXED:
+        yield 'parse ' + hx(t)
+        yield 'parse ' + hx('[' + t + ']')
+        yield 'parse ' + hx('{"gain": ' + t + '}')
+    for _ in range(300 if quick else 20000):
+        yield 'parse ' + hx(wrap_text(rng, rand_double_text(rng)))
     for _ in range(500 if quick else 30000):
         doc = render(rng, tree_to_py(rand_tree(rng, rng.choice([1, 2, 3, 4, 6, 8]), printable=rng.random() < 0.8)))
         yield 'parse ' + hx(doc.encode('latin-1'))
@@ -329,7 +370,8 @@ def nontrivial(payload, md):
 
 LEVEL_TEXT = ('Coq theorems over an executable model of common/web, for all inputs: the parser is total (c19_total: '
               'never exhausts its recursion budget 2*length+2, never has more than MAX_DEPTH containers open, returns '
-              'an error or a value); write-then-parse is the identity on every guarded value tree (c19_roundtrip: '
+              'an error or a value; c19_total_double: the number path costs one budget unit whatever the digits and '
+              'stores the wrapped DoubleRepresentation fields - AsDouble itself is watchdog-checked only); write-then-parse is the identity on every guarded value tree (c19_roundtrip: '
               'printable-ASCII strings/keys, 32/64-bit integers, booleans, null, arrays, objects with sorted unique '
               'keys, depth <= MAX_DEPTH, canonical IsComplexType flags: parsed tree equal by operator== and re-written '
               'to the same text); JSON Pointers round-trip for every token sequence and IsPrefixOf/index/evaluation '
